@@ -8,10 +8,11 @@ demo_rel = sys.argv[5] if len(sys.argv) > 5 else 'emulator-2a-lib/tests/demo_mut
 src = f'/tmp/mut-{prop}/{var}'
 dst = f'/verif/seeded/{prop}-{var}'
 os.makedirs(dst, exist_ok=True)
-for f in ['patch.diff', 'demo.rs', 'notes.md']:
+for f in ['patch.diff', 'demo.rs', 'demo.sh', 'notes.md']:
     if os.path.exists(f'{src}/{f}'):
         shutil.copy(f'{src}/{f}', f'{dst}/{f}')
-conf = json.loads(subprocess.run(['/verif/tools/confirm_seeded.sh', src, f'/tmp/wt-{prop}', demo_rel], capture_output=True, text=True).stdout.strip().splitlines()[-1])
+wt = os.environ.get('WT', f'/tmp/wt-{prop}')
+conf = json.loads(subprocess.run(['/verif/tools/confirm_seeded.sh', src, wt], capture_output=True, text=True).stdout.strip().splitlines()[-1])
 out = subprocess.run(['/verif/tools/try_seeded.sh', f'{dst}/patch.diff'] + checks, capture_output=True, text=True).stdout
 results = {}
 for line in out.splitlines():
@@ -29,9 +30,8 @@ meta = {
   'needs_to_manifest': needs,
   'confirmed_in_scratch_worktree': conf,
   'confirmation_commands': [
-     f'cp demo.rs <worktree>/{demo_rel} && cargo test --offline --test demo_mut   (pristine: passes)',
-     'git apply patch.diff && cargo test --workspace --offline   (suite passes with the change)',
-     f'cargo test --offline --test demo_mut   (with the change: fails)'],
+     'tools/confirm_seeded.sh <dir> <scratch worktree>: demo on the pristine worktree (must pass); git apply patch.diff && cargo test --workspace --offline (suite must pass); demo again (must fail)',
+     'demo kinds: demo.rs = integration test emulator-2a-lib/tests/demo_mut.rs; demo.rs with "// append-to: <file>" = unit-test module appended to that source file, run with cargo test -p emulator-2a demo_mut; demo.sh = script run in the worktree'],
   'checks_run_against_it': results,
   'how_checks_were_run': 'tools/try_seeded.sh patch.diff <ids>  (git -C /repo apply; ./check <id> --tier quick; git -C /repo checkout -- .)',
 }
